@@ -52,6 +52,13 @@ CHECKS = {
         text="has_space(s) <=> current + s <= max, checked_add(s) is Ok <=> has_space(s) with an exact update and an untouched state on Err, for all values; hence a block assembled under these guards stays within both limits and the same additions replayed by ProcessProposal cannot fail.",
         note="Trusted: Verus/Z3, GeneratedCommitments::total_size as an opaque constant, R6 rewrites of ensure!/eyre macros. Not under contract: App::proposal_checks_and_tx_execution (prepare/process agreement), commitment comparison, action-group ordering, typed data-item parsing.",
     ),
+    "C07": dict(
+        category="other",
+        technique="Kani harnesses on the extracted receiver-side binding functions (conductor reconstruct, astria-core do_rollup_transactions_match_root) with Merkle audits as logged opaque predicates",
+        text="Decides the receiver-side binding only: rollup data is attached to metadata (conductor) or accepted for a block (astria-core) only through an audit of the data's own proof against that metadata's/header's root over the leaf rollup_id ‖ MTH(its own transactions); "
+             "a header is consumed only by a blob with the same block hash that passed that audit. With C08 (a verifying proof fixes leaf and path under H-inj) this gives tamper evidence for alteration and re-attribution.",
+        note="level other. Trusted: Kani/CBMC, opaque audit predicate, MTH as an uninterpreted function. NOT covered: builder side (commitment generation, try_build), gRPC filtering, split_for_celestia, the try_from_raw constructors, ordering/completeness of rollup data.",
+    ),
     "C08": dict(
         category="proof",
         technique="Kani in place on the whole astria-merkle crate (function contract on complete_parent, full-domain harnesses on the index arithmetic, sha2 replaced by a structural hash) + Verus on the extracted verification walk with the Kani-proved contracts imported + Verus soundness lemma under H-inj",
@@ -114,6 +121,13 @@ CHECKS = {
              "A proof fn lifts this to arbitrary push/pop histories (each accepted action emitted exactly once, in order).",
         note="Trusted: Verus/Z3; prost encoded_len and with_ibc_prefixed as uninterpreted functions; the metrics-only rollup_counts statement hoisted into an "
              "opaque function; mem::replace specification; max_size < usize::MAX. NextFinishedBundle (a &mut-holding struct) is outside Verus' subset.",
+    ),
+    "C17": dict(
+        category="other",
+        technique="Kani in place on astria-merkle with astria-core's `impl Protobuf for merkle::Proof` cut into the same crate: decode of an arbitrary wire proof",
+        text="Decides one component: decoding any wire Merkle proof (any leaf_index/tree_size u64, path up to 40 bytes) never panics and an accepted proof re-encodes to the message it came from; verification of every decoded proof is total (C08 units). "
+             "The block-, metadata- and transaction-level decoders are not under contract.",
+        note="level other. Trusted: Kani/CBMC, stand-ins for Protobuf/raw::Proof/Bytes. NOT covered: prost/serde_json/brotli byte decoders; try_from_raw of SequencerBlock, FilteredSequencerBlock, SubmittedMetadata, SubmittedRollupData, Transaction; panics in tokio tasks.",
     ),
     "C18": dict(
         category="proof",
